@@ -414,7 +414,11 @@ class Filtration(PoupoolActor):
             logger.info(f"Backwash period set to: {self.__backwash_period}")
 
     def backwash_last(self, value):
-        self.__backwash_last = datetime.strptime(value, "%c")
+        try:
+            self.__backwash_last = datetime.strptime(value, "%c")
+        except ValueError:
+            logger.error(f"Invalid date for last backwash: {value}")
+            return
         logger.info(f"Backwash last set to: {self.__backwash_last}")
 
     def tank_start(self):
